@@ -81,7 +81,7 @@ def families(tier, seed):
                         run=harness.sweep(cs.FUNCTIONS[fname], sh, params, 'automaton', seed, ns, be), label='bounded'))
     for be in ('cudd', 'autoref'):
         out.append(dict(name=f'same automaton object solved again after its game was replaced [{be}]',
-                        run=gm.resolve_same_automaton('streett', seed, 8 if tier == 'quick' else 120, be), label='bounded'))
+                        run=gm.resolve_same_automaton('streett', seed, 60 if tier == 'quick' else 400, be), label='bounded'))
     from contracts import optdiff as _od
     out.append(dict(name='same results with assert statements stripped (python -O), section C01', run=_od.family('C01'), label='bounded'))
     return out
